@@ -17,6 +17,15 @@ load_paths; `REPEX_state.__init__` against `blank`; direct cases for create_engi
 Fourth family (restarts with an observer): restart chains with `output.screen = 1` and with the
 probability matrix read right after `load_paths` (a legal observation that fills the `_last_prob`
 cache); the matrix the code hands to `choice` at every pick must have no mass on a busy row/column.
+Fifth family (hand-over, props/c03_lazy.py): the REAL scheduler() with a runner that — like the real aiorunner — keeps the
+submitted REFERENCE and copies when the schedule lets a worker take the unit (late / eager / random take points, also inside the
+following prep_md_items / treat_output, also across restarts); the C03 predicates are evaluated on what the workers RECEIVE
+(content at take time = content at submit time; pins, folders, ensembles, paths, engine instances of the running units pairwise
+distinct; complete jobs), plus the aliasing predicate (no unit is the object of / shares a container that prep_md_items writes to
+with a unit still in flight); the object-level events are replayed through `Infretis.Repex.Submit` (driver ops lz…).
+Audit additions (props/c03_audit.py): output.screen in {0,1,5}; runner.wmdrun lists (own command per pin); finished runs continued
+with more steps; pins are worker indices (judged right after prep_md_items, before the state is dumped); the Monte-Carlo branch of
+inf_retis directly; a recorded note on the class-level traj_data dict.
 """
 from __future__ import annotations
 
@@ -136,8 +145,20 @@ def predicates(ctx, sim, label):
         ctx.fail("C03:pick-from-busy-slot", what, dict(rep0, op_index=opi))
     for what in getattr(sim, "eng_faults", []):
         ctx.fail("C03:engine-objects-aliased", what, rep0)
+    for what in getattr(sim, "unit_faults", [])[:4]:
+        ctx.fail("C03:pin-not-a-worker-index", what, rep0)
+    for what in getattr(sim, "unreadable", [])[:1]:
+        ctx.fail("C03:state-unreadable", f"the canonical dump cannot read the sampler's state ({what})", rep0)
     if sim.error is not None:
-        ctx.fail("C03:sampler-raised", f"{type(sim.error).__name__}: {sim.error}", rep0)
+        # who raised: the sampler, or the harness while reading the sampler's state (e.g. a None in engine_occ)?
+        tb, last = sim.error.__traceback__, None
+        while tb is not None:
+            last = tb.tb_frame.f_code.co_filename
+            tb = tb.tb_next
+        if last and os.sep + "harness" + os.sep in last:
+            ctx.fail("C03:state-unreadable", f"the state cannot be read after the last op ({type(sim.error).__name__}: {sim.error})", rep0)
+        else:
+            ctx.fail("C03:sampler-raised", f"{type(sim.error).__name__}: {sim.error}", rep0)
 
 
 # ----------------------------------------------------------------------------- real engine objects
@@ -232,6 +253,27 @@ def _extras(md):
     return {"wmdrun": [dd.get("wmdrun") for dd in md["picked"].values()], "pins": [dd.get("pin") for dd in md["picked"].values()]}
 
 
+def _check_unit(sim, md):
+    """judged right after prep_md_items returns, before anything else reads the state: the unit's identity"""
+    pin = md.get("pin")
+    faults = sim.__dict__.setdefault("unit_faults", [])
+    if isinstance(pin, bool) or not isinstance(pin, int) or not 0 <= pin < sim.workers:
+        faults.append(f"prep_md_items hands out a job with pin {pin!r} ({sim.workers} worker(s)); folder "
+                      f"{os.path.basename(str(md.get('w_folder')))}, engine_occ {dict(sim.st.engine_occ)}")
+    elif os.path.basename(str(md.get("w_folder"))) != f"worker{pin}":
+        faults.append(f"job of pin {pin} is sent to folder {os.path.basename(str(md.get('w_folder')))}")
+
+
+def _dump(sim):
+    """the canonical dump of the shared harness; when IT cannot read the state (e.g. a None where it expects a worker index) the
+    history goes on with the recorder's own snapshot, so that the predicates still see what the jobs in flight share"""
+    try:
+        return sim.op_dump()
+    except (TypeError, ValueError) as e:
+        sim.__dict__.setdefault("unreadable", []).append(f"{type(e).__name__}: {e}")
+        return sim.rec.snapshot()
+
+
 def _job_view(md):
     return (md.get("pin"), list(md.get("ens_nums", [])), [(e, dd.get("pn_old"), dict(dd.get("eng_idx", {})), dd.get("exe_dir"), dd.get("pin"))
                                                            for e, dd in md["picked"].items()],
@@ -286,7 +328,7 @@ def drive(sim, q, rng, stop_after, image, weights):
     sim.snaps = snaps
 
     def snap(tag):
-        d = sim.op_dump()
+        d = _dump(sim)
         held = []
         for md in inflight:
             objs = None
@@ -306,6 +348,7 @@ def drive(sim, q, rng, stop_after, image, weights):
         finally:
             sim.rec.end(len(sim.lines) - 1)
             _check_draws(sim, locks_before, getattr(sim, "draws_by_op", {}).get(len(sim.lines) - 1, []), len(sim.lines) - 1)
+        _check_unit(sim, md)
         if q["alias"]:
             alias_probe(sim, md, inflight + [md])
         return md
@@ -389,7 +432,7 @@ def drive_sched(sim, q, rng, stop_after=None, image=None, weights=None):
     pending = {}
 
     def snap(tag):
-        d = sim.op_dump()
+        d = _dump(sim)
         held = []
         for md in inflight:
             dirs = sorted({os.path.realpath(dd["exe_dir"]) for dd in md["picked"].values() if "exe_dir" in dd})
@@ -468,6 +511,7 @@ def drive_sched(sim, q, rng, stop_after=None, image=None, weights=None):
             try:
                 out = sim.op_prep(md)
                 ok = True
+                _check_unit(sim, out)
                 return out
             finally:
                 sim.rec.end(len(sim.lines) - 1)
@@ -607,6 +651,10 @@ def one(ctx, params, with_model, outs):
         if stop is None or sim.error is not None or sim.image is None:
             break
         image, weights = sim.image, sim.weights_by_pn
+        if q["engmap"] == "noord":
+            # a restart file of the older format: in-flight jobs on record WITHOUT the ordinal of their random stream
+            image = dict(image, locked=[list(e[:2]) for e in image.get("locked", [])])
+            ctx.hit("restarts_from_records_without_ordinal", 1)
         if stop < 0:
             steps += -stop
             ctx.hit("finished_runs_continued", 1)
@@ -756,6 +804,19 @@ def run(ctx):
         chain = [-rng.randint(1, 8)] + ([] if i % 2 else [rng.choice([-rng.randint(1, 6), steps + 1])])
         plans.append((n_ens, w, steps, rng.randint(0, 9), i % 2 == 1, rng.randint(1, 2), rng.choice([0.3, 0.7]), n_ens <= 5,
                       chain, rng.choice([0, 1, 5]), False, False, [rng.choice([w, max(1, w - 1), min(n_ens - 1, w + 1)])], "", False))
+    # restart files without job ordinals (older format: pick_lock hands the re-issued job a fresh stream); the process killed right
+    # after the LAST treat_output (restart with no step left: initiate() and loop() answer False at once)
+    for i in range(4 if ctx.quick else 24):
+        n_ens = rng.randint(3, 6)
+        w = rng.randint(2, n_ens - 1)
+        steps = rng.randint(8, 16)
+        plans.append((n_ens, w, steps, rng.randint(0, 9), i % 2 == 1, 1, 0.7, n_ens <= 5, sorted(rng.sample(range(1, steps - w), 2)),
+                      rng.choice([0, 1]), False, False, [w, rng.choice([w, max(1, w - 1)])], "noord", False, i % 4 == 3))
+    for i in range(3 if ctx.quick else 12):
+        n_ens = rng.randint(3, 5)
+        w = rng.randint(1, n_ens - 1)
+        steps = rng.randint(max(2, w), 9)
+        plans.append((n_ens, w, steps, rng.randint(0, 9), i % 2 == 1, 1, 0.7, True, [steps], rng.choice([0, 1, 5]), False, False, [w], "", False))
     # the REAL scheduler() with a runner that keeps the submitted REFERENCE and copies when a worker takes the unit (as the
     # real aiorunner: enqueue now, pickle later): take points late / eager / drawn at random among all the queue allows
     for i in range(15 if ctx.quick else 120):
